@@ -7,14 +7,11 @@ from ..astutil import (dotted, call_name, call_tail, walk_body, stmts_of, stmt_o
                        names_loaded, kwarg, is_const, root_name, handler_catches)
 from .. import scopes
 
-_cfg_cache = {}
-
-
 def cfg_of(fi):
-    k = id(fi.node)
-    if k not in _cfg_cache:
-        _cfg_cache[k] = CFG(fi.node)
-    return _cfg_cache[k]
+    c = getattr(fi, '_cfg', None)
+    if c is None:
+        c = fi._cfg = CFG(fi.node)
+    return c
 
 
 def fkey(fi, what=''):
